@@ -107,7 +107,32 @@ Theorem C05_point_distance_at_fine_point : forall (pos : list (R * R)) (dist : l
   get_distance Rops pos dist (nth k pos (0, 0)) = nth k dist 0.
 Proof. exact get_distance_at_fine_point. Qed.
 
+(* FineContour.interpFunction (how regridding places a point at a given poloidal distance s from startInd): the point lies ON the
+   polygon, on the segment whose distances enclose s, at the fraction where the polygon length is s ... *)
+Theorem C05_placed_point_on_polygon : forall (pos : list (R * R)) (dist : list R) si s, incr dist -> length dist = length pos -> (2 <= length pos)%nat ->
+  nth 0 dist 0 <= s + nth si dist 0 <= last dist 0 ->
+  exists lo t, (S lo < length pos)%nat /\ 0 <= t <= 1 /\
+    s + nth si dist 0 = nth lo dist 0 + t * (nth (S lo) dist 0 - nth lo dist 0) /\
+    interp_point Rops pos dist si s =
+      (fst (nth lo pos (0, 0)) + t * (fst (nth (S lo) pos (0, 0)) - fst (nth lo pos (0, 0))),
+       snd (nth lo pos (0, 0)) + t * (snd (nth (S lo) pos (0, 0)) - snd (nth lo pos (0, 0)))).
+Proof. exact placed_point_on_polygon. Qed.
+
+(* ... and getDistance measures for it exactly the distance it was placed at, whenever the two fine points it selects are the
+   ends of that segment (placing and measuring are inverse to each other: hy is consistent with the spacing function) *)
+Theorem C05_placed_point_distance_round_trip : forall (pos : list (R * R)) (dist : list R) lo t,
+  (S lo < length pos)%nat -> 0 <= t <= 1 -> nth lo pos (0, 0) <> nth (S lo) pos (0, 0) ->
+  let a := nth lo pos (0, 0) in let b := nth (S lo) pos (0, 0) in
+  let p := (fst a + t * (fst b - fst a), snd a + t * (snd b - snd a)) in
+  let dfp := map (fun q => len p q) pos in
+  let i1 := argmin Rops dfp in
+  let i2 := second_index Rops pos p i1 in
+  (i1 = lo /\ i2 = S lo) \/ (i1 = S lo /\ i2 = lo) ->
+  get_distance Rops pos dist p = nth lo dist 0 + t * (nth (S lo) dist 0 - nth lo dist 0).
+Proof. exact placed_point_distance_round_trip. Qed.
+
 Print Assumptions C05_distance_is_polygon_length.
 Print Assumptions C05_distance_bounds_chord.
 Print Assumptions C05_reverse_keeps_distance.
 Print Assumptions C05_point_distance_at_fine_point.
+Print Assumptions C05_placed_point_on_polygon.
